@@ -172,3 +172,85 @@ func chanName(t string) string {
 	}
 	return t
 }
+
+// lockDiscipline: every method of the named struct type that touches one of the
+// protected fields either takes the struct's mutex in its entry block (Lock + a
+// deferred Unlock) or is only ever called from methods that do.
+type lockResult struct {
+	Fn     *ssa.Function
+	Field  string
+	Pos    token.Pos
+	OK     bool
+	Why    string
+}
+
+func (p *Program) lockDiscipline(pkgShort, typeName string, fields []string, lockCallee, unlockCallee string) []lockResult {
+	prot := map[string]bool{}
+	for _, f := range fields {
+		prot[f] = true
+	}
+	holds := map[*ssa.Function]bool{}
+	touches := map[*ssa.Function][]*ssa.FieldAddr{}
+	for _, fn := range p.ModFns {
+		if !strings.HasPrefix(FnName(fn), pkgShort+".") {
+			continue
+		}
+		for _, b := range fn.Blocks {
+			for _, in := range b.Instrs {
+				fa, ok := in.(*ssa.FieldAddr)
+				if !ok {
+					continue
+				}
+				st := derefStruct(fa.X.Type())
+				if st == nil || !prot[st.Field(fa.Field).Name()] {
+					continue
+				}
+				if !strings.HasSuffix(typeShort(fa.X.Type()), pkgShort+"."+typeName) {
+					continue
+				}
+				if _, fresh := fa.X.(*ssa.Alloc); fresh {
+					continue // constructor initialising a value nobody else can see yet
+				}
+				touches[fn] = append(touches[fn], fa)
+			}
+		}
+		// entry-block Lock + deferred Unlock
+		lock, unlock := false, false
+		if len(fn.Blocks) > 0 {
+			for _, in := range fn.Blocks[0].Instrs {
+				if c, ok := in.(*ssa.Call); ok && calleeName(&c.Call) == lockCallee {
+					lock = true
+				}
+				if d, ok := in.(*ssa.Defer); ok && calleeName(&d.Call) == unlockCallee {
+					unlock = true
+				}
+			}
+		}
+		holds[fn] = lock && unlock
+	}
+	var out []lockResult
+	for fn, fas := range touches {
+		ok := holds[fn]
+		why := "takes the mutex in its entry block with a deferred unlock"
+		if !ok {
+			// all callers hold it (closures: their parent)
+			callers := p.Callers(fn)
+			all := len(callers) > 0
+			var names []string
+			for _, c := range callers {
+				names = append(names, FnName(c))
+				if !holds[c] {
+					all = false
+				}
+			}
+			ok = all
+			why = "called only from lock-holding methods: " + strings.Join(names, ", ")
+			if !ok {
+				why = "accesses a mutex-protected map without holding the mutex (callers: " + strings.Join(names, ", ") + ")"
+			}
+		}
+		st := derefStruct(fas[0].X.Type())
+		out = append(out, lockResult{Fn: fn, Field: st.Field(fas[0].Field).Name(), Pos: fas[0].Pos(), OK: ok, Why: why})
+	}
+	return out
+}
